@@ -8,7 +8,7 @@ export VERIF_REPO=$R
 ids=$(python3 -c "import json;print(' '.join(c['property_id'] for c in json.load(open('MANIFEST.json'))['checks']))")
 for d in seeded/*/; do
   name=$(basename $d)
-  git -C $R checkout -q -- . ; git -C $R apply $d/patch.diff || { echo "$name: patch does not apply"; continue; }
+  git -C $R checkout -q -- . ; git -C $R apply $PWD/${d}patch.diff || { echo "$name: patch does not apply"; continue; }
   line="$name:"
   run_ids=$ids
   if [ "$MATRIX_MODE" = own ]; then run_ids=$(echo $name | cut -c1-3); fi
